@@ -520,6 +520,68 @@ def run_audit(ctx):
     return res
 
 
+def r10_abandoned(ctx):
+    """R10.9: a receiver that stops consuming iter_pending() / iteration early takes only what it consumed - the messages it
+    did not take are still delivered to the next receiver (a generator that drains the queue eagerly into a private list loses
+    them: received zero times)."""
+    from ..absint import AList, AObj
+    from ..model import FuncInfo as FI, add_parents
+    src = ("def probe(port, meth):\n"
+           "    first = None\n"
+           "    for m in getattr(port, meth)():\n"
+           "        first = m\n"
+           "        break\n"
+           "    second = port.poll()\n"
+           "    third = port.poll()\n"
+           "    return first, second, third\n")
+    tree = ast.parse(src)
+    add_parents(tree)
+    probe = FI('probe', ctx.p.module(P), tree.body[0])
+    n = 0
+    for kind in ('BaseInput', 'BaseIOPort', 'EchoPort', 'IOPort', 'MultiPort'):
+        cls = ctx.p.cls(P, kind)
+        for meth in ('iter_pending', '__iter__'):
+            ai = pm.make_interp(ctx)
+            pm.device_double(ai, ctx)
+            holder = {}
+
+            def thunk():
+                if kind == 'IOPort':
+                    i = pm.new_port(ai, ctx, 'BaseInput', [], {})
+                    port = pm.new_port(ai, ctx, 'IOPort', [i, pm.new_port(ai, ctx, 'BaseOutput', [], {})], {})
+                    feeder = i
+                elif kind == 'MultiPort':
+                    feeder = pm.new_port(ai, ctx, 'BaseIOPort', [], {})
+                    port = pm.new_port(ai, ctx, 'MultiPort', [[feeder]], {})
+                else:
+                    port = feeder = pm.new_port(ai, ctx, kind, [], {})
+                ms = [pm.note(ctx, 1), pm.note(ctx, 2)]
+                holder['ms'] = ms
+                feeder.attrs['_messages'].items.extend(ms)
+                ai.sleeps = 0
+                return ai.call_function(probe, [port, meth], {})
+            o, fn = ctx.p.lookup_method(cls, meth)
+            w = ctx.where(fn) if fn is not None else f'{cls.module.relpath}:{cls.node.lineno} {kind}'
+            outs = ai.explore(thunk)
+            n += 1
+            inst = f'{kind}: for m in port.{meth}(): break; poll(); poll()'
+            ok = len(outs) == 1 and outs[0].kind == 'return'
+            why = f'{outs}'
+            if ok:
+                v = outs[0].value
+                got = list(v.items) if isinstance(v, AList) else list(v)
+                ms = holder['ms']
+
+                def same(a, b):
+                    return a is b or (isinstance(a, AObj) and isinstance(b, AObj) and a.attrs == b.attrs)
+                ok = len(got) == 3 and same(got[0], ms[0]) and same(got[1], ms[1]) and got[2] is None
+                why = f'two messages pending; the loop takes {got[0]!r} and stops; the next polls give {got[1]!r} and {got[2]!r} - the second message must still be delivered, once'
+            ctx.require(ok, 'R10.9', inst, w, why, construct=f'{cls.qname}::{meth}::abandoned-iteration')
+            for q in ai.inlined:
+                ctx.functions.add(q)
+    ctx.floor('R10.9', n, 10)
+
+
 def r10_exec(ctx):
     """R10.8: no public call on an open port raises, in any audited abstract execution; floors on what the audit saw."""
     audit = run_audit(ctx)
@@ -540,5 +602,5 @@ def r10_exec(ctx):
     ctx.floor('R10.8-sleeps', audit['totals']['sleep'], 2)
 
 
-RULES = [('R10.8', r10_exec), ('R10.1', r10_1), ('R10.2', r10_2), ('R10.3', r10_3), ('R10.4', r10_4), ('R10.5', r10_5), ('R10.6', r10_6), ('R10.7', r10_7)]
+RULES = [('R10.8', r10_exec), ('R10.9', r10_abandoned), ('R10.1', r10_1), ('R10.2', r10_2), ('R10.3', r10_3), ('R10.4', r10_4), ('R10.5', r10_5), ('R10.6', r10_6), ('R10.7', r10_7)]
 THOROUGH_RULES = [('R10-backends', r10_backends)]
